@@ -387,13 +387,10 @@ fn compare_rows(a: &[Value], b: &[Value], keys: &[SortKey]) -> Ordering {
 
 /// Compares two values.
 fn compare_values(a: &Value, b: &Value) -> Ordering {
-    match (a, b) {
-        (Value::Bool(a), Value::Bool(b)) => a.cmp(b),
-        (Value::Int64(a), Value::Int64(b)) => a.cmp(b),
-        (Value::Float64(a), Value::Float64(b)) => a.partial_cmp(b).unwrap_or(Ordering::Equal),
-        (Value::String(a), Value::String(b)) => a.cmp(b),
-        _ => Ordering::Equal,
-    }
+    // One order for every sort in the engine: a total preorder (see operators/sort.rs).
+    // A comparator that calls NaN, or a value of another kind, equal to everything is
+    // inconsistent, and sort_by panics on such a comparator
+    crate::execution::operators::sort::compare_values(a, b)
 }
 
 /// Adapter to write to SpillFile through std::io::Write.
